@@ -31,7 +31,7 @@ PROPERTIES = {
     },
     "C01": {
         "rule": "rapidcheck stateful histories on one live cell: start mesh from 6 construction families, or (1/4) a hub with 1-3 lobes glued on its faces (connected sums: cycles of three edges that bound no face) (+ random 1-to-3 / edge-split "
-                "refinements, anisotropic scale, shear, radial bump, node noise, rigid motion, um and unit scale), then up to ~40 commands "
+                "refinements, anisotropic scale, shear, radial bump, node noise, rigid motion, length units from nanometre-in-metres (3e-9) over um and unit scale to 1e4), then up to ~40 commands "
                 "drawn from {displace (noise / stretch / compress / bump / pinch), refresh normals, refine pass with or without swaps, "
                 "split / swap of the k-th edge, collapse of the k-th too-short edge, rebase, force-driven step}; the independent topology "
                 "oracle runs after every command. Non-trivial = history in which a split (or pass) and a swap (or pass) changed the "
@@ -89,7 +89,7 @@ PROPERTIES = {
     },
     "C12": {
         "rule": "rapidcheck: closed mesh (6 families + ellipsoids with a unique longest axis), placed by a random rigid motion (up to 1000 "
-                "sizes from the origin, um and unit scale), random renumbering of nodes/triangles, random per-triangle winding flips, "
+                "sizes from the origin, length units from nanometre-in-metres (3e-9) over um and unit scale to 1e4), random renumbering of nodes/triangles, random per-triangle winding flips, "
                 "0-3 unused nodes appended; re-evaluated in a second frame (another rigid motion + renumbering + winding mix) and after a "
                 "uniform scaling lambda. Non-trivial = the input contained inward-wound triangles AND D/size >= 10; distinct = hash of the case.",
         "min_nontrivial": 100,
